@@ -380,6 +380,9 @@ type job struct {
 	res    Result
 	died   string // "" | crash:<site> | oom | timeout
 	diedOp string
+	diedA  int
+	subsets [][]int
+	subsetOnly bool
 }
 
 func subValues(old byte) []int {
@@ -433,6 +436,9 @@ func genJobs(e *hx.Env, b *baseInfo, absent string) []*job {
 			j.extra = append(mutatedAddr(b, rg, v), absent)
 			jobs = append(jobs, j)
 		}
+	}
+	if b.Kind == "arc" || b.Kind == "arcm" {
+		jobs = append(jobs, archiveSpanJobs(e, b, absent, jobs)...)
 	}
 	// every truncation length
 	if !b.Split || true {
@@ -557,7 +563,9 @@ func mustBase(e *hx.Env, b *baseInfo, err error) *baseInfo {
 	return b
 }
 
-func caseOf(j *job) Case { return Case{Base: j.b.Base, Mut: j.mut, Extra: j.extra, Shape: j.shape} }
+func caseOf(j *job) Case {
+	return Case{Base: j.b.Base, Mut: j.mut, Extra: j.extra, Shape: j.shape, Subsets: j.subsets, SubsetOnly: j.subsetOnly}
+}
 
 func run(e *hx.Env) {
 	only := map[string]bool{}
@@ -682,3 +690,190 @@ func run(e *hx.Env) {
 }
 
 func init() { _ = json.Marshal }
+
+
+// ---------------------------------------------------------------- archive span-index cases
+
+// arcInfo: where the span index of a valid archive sits.
+type arcInfo struct {
+	indexStart, nSpans, nChunks, dataLen int
+}
+
+func arcInfoOf(file []byte) (a arcInfo, ok bool) {
+	if len(file) < arcFooter {
+		return a, false
+	}
+	f := file[len(file)-arcFooter:]
+	indexLen := int(binary.BigEndian.Uint64(f[0:]))
+	ftr := arcFooter
+	if file[len(file)-8] < 3 {
+		ftr = arcFooter - 4
+		indexLen = int(binary.BigEndian.Uint32(f[4:]))
+	}
+	a.nSpans = int(binary.BigEndian.Uint32(f[8:]))
+	a.nChunks = int(binary.BigEndian.Uint32(f[12:]))
+	metaLen := int(binary.BigEndian.Uint32(f[16:]))
+	a.indexStart = len(file) - ftr - metaLen - indexLen
+	a.dataLen = a.indexStart
+	if a.indexStart < 0 || a.indexStart+8*a.nSpans+28*a.nChunks > len(file) {
+		return a, false
+	}
+	return a, true
+}
+
+// allSubsets: the batched reads issued after a span-index corruption: every pair (which includes the
+// pairs with a gap and "every second chunk"), every triple, for up to 6 chunks; random subsets beyond.
+func allSubsets(e *hx.Env, n int) [][]int {
+	var out [][]int
+	for i := 0; i < n; i++ {
+		for j := i + 1; j < n; j++ {
+			out = append(out, []int{i, j})
+		}
+	}
+	if n <= 6 {
+		for i := 0; i < n; i++ {
+			for j := i + 1; j < n; j++ {
+				for k := j + 1; k < n; k++ {
+					out = append(out, []int{i, j, k})
+				}
+			}
+		}
+	}
+	for x := 0; x < 4 && n > 3; x++ {
+		var sub []int
+		for i := 0; i < n; i++ {
+			if e.Rng.Bool() {
+				sub = append(sub, i)
+			}
+		}
+		if len(sub) >= 2 {
+			out = append(out, sub)
+		}
+	}
+	return out
+}
+
+// archiveSpanJobs: (1) every already generated single-byte span-index case gets the subset reads;
+// (2) structured single-byte corruptions that move the END of span s strictly INSIDE another span t
+// (nested / overlapping spans that all stay inside the file) -- the shapes a read planner that
+// merges adjacent spans has to survive.
+func archiveSpanJobs(e *hx.Env, b *baseInfo, absent string, existing []*job) []*job {
+	file := hx.Unhex(b.File)
+	ai, ok := arcInfoOf(file)
+	if !ok {
+		return nil
+	}
+	subs := allSubsets(e, len(b.Addrs))
+	var out []*job
+	// one job per (corruption, subset): a batched read that crashes the worker must not hide the others,
+	// and the full-set reads of the ordinary case usually crash first
+	perSubset := func(m Mut, ss [][]int) {
+		for _, sub := range ss {
+			out = append(out, &job{b: b, mut: m, region: "idx.span", shape: "single", extra: []string{absent},
+				subsets: [][]int{sub}, subsetOnly: true})
+		}
+	}
+	for _, j := range existing {
+		if j.shape == "single" && j.region == "idx.span" {
+			var pairs [][]int
+			for _, sub := range subs {
+				if len(sub) == 2 {
+					pairs = append(pairs, sub)
+				}
+			}
+			perSubset(j.mut, pairs)
+		}
+	}
+	ends := make([]uint64, ai.nSpans+1)
+	for s := 1; s <= ai.nSpans; s++ {
+		ends[s] = binary.BigEndian.Uint64(file[ai.indexStart+8*(s-1):])
+	}
+	for s := 1; s <= ai.nSpans; s++ {
+		for t := 1; t <= ai.nSpans; t++ {
+			if t == s || ends[t]-ends[t-1] < 2 {
+				continue
+			}
+			lo, hi := ends[t-1], ends[t] // want lo < newEnd < hi
+			entryOff := ai.indexStart + 8*(s-1)
+			found := false
+			for p := 7; p >= 0 && !found; p-- {
+				for v := 0; v < 256 && !found; v++ {
+					if byte(v) == file[entryOff+p] {
+						continue
+					}
+					var mod [8]byte
+					copy(mod[:], file[entryOff:entryOff+8])
+					mod[p] = byte(v)
+					ne := binary.BigEndian.Uint64(mod[:])
+					if ne > lo && ne < hi && ne == lo+(hi-lo)/2 {
+						m := Mut{Subs: [][2]int{{entryOff + p, v}}, Trunc: -1}
+						out = append(out, &job{b: b, mut: m, region: "idx.span", shape: "single", extra: []string{absent}})
+						perSubset(m, subs)
+						found = true
+					}
+				}
+			}
+		}
+	}
+	return out
+}
+
+// spansInBounds: after the corruption of job j, do all byte spans that the chunks of subset |si|
+// need (data span and dictionary span of each chunk) have 0 < length and lie inside the data
+// region?  (Then no size field is out of range for that read, and a panic is not explained by one.)
+func spansInBounds(j *job, si int) bool {
+	if si < 0 || si >= len(j.subsets) {
+		return false
+	}
+	base := hx.Unhex(j.b.File)
+	ai, ok := arcInfoOf(base)
+	if !ok {
+		return false
+	}
+	for _, sb := range j.mut.Subs { // only span-index bytes may be damaged
+		if sb[0] < ai.indexStart || sb[0] >= ai.indexStart+8*ai.nSpans {
+			return false
+		}
+	}
+	if j.mut.Trunc >= 0 {
+		return false
+	}
+	file := j.mut.apply(base)
+	ends := make([]uint64, ai.nSpans+1)
+	for s := 1; s <= ai.nSpans; s++ {
+		ends[s] = binary.BigEndian.Uint64(file[ai.indexStart+8*(s-1):])
+	}
+	// index position of each stored address: the archive index is sorted by address
+	order := make([]int, len(j.b.Addrs))
+	for i := range order {
+		order[i] = i
+	}
+	sort.Slice(order, func(x, y int) bool { return j.b.Addrs[order[x]] < j.b.Addrs[order[y]] })
+	pos := map[int]int{}
+	for p, a := range order {
+		pos[a] = p
+	}
+	refs := ai.indexStart + 8*ai.nSpans + 8*ai.nChunks
+	okSpan := func(id uint32) bool {
+		if id == 0 {
+			return true
+		}
+		if int(id) > ai.nSpans {
+			return false
+		}
+		st, en := ends[id-1], ends[id]
+		return en > st && en <= uint64(ai.dataLen)
+	}
+	for _, a := range j.subsets[si] {
+		p, ok := pos[a]
+		if !ok || p >= ai.nChunks {
+			return false
+		}
+		dict := binary.BigEndian.Uint32(file[refs+8*p:])
+		data := binary.BigEndian.Uint32(file[refs+8*p+4:])
+		if !okSpan(dict) || !okSpan(data) {
+			return false
+		}
+	}
+	return true
+}
